@@ -125,12 +125,18 @@ def sheet_xml(cells, sst):
     return ''.join(parts)
 
 
-def build(sheets, names=None, date1904=False, hidden=()):
+def build(sheets, names=None, date1904=False, hidden=(), norefs=()):
     """sheets: list of (title, {coord: cellspec}); names: {name: target text};
     date1904: the workbook uses the 1904 date system; hidden: titles of sheets
     with state="hidden".  Returns the .xlsx file content as bytes."""
     sst = {}
     sheet_parts = [sheet_xml(cells, sst) for _, cells in sheets]
+    # norefs: titles of sheets written without the (optional) r attributes of
+    # rows and cells - their cells must fill the rows from A1 on without gaps
+    for i, (title, cells) in enumerate(sheets):
+        if title in norefs:
+            sheet_parts[i] = re.sub(r'<(c|row) r="[A-Z]*[0-9]+"', r'<\1',
+                                    sheet_parts[i])
     wb = ['<?xml version="1.0" encoding="UTF-8" standalone="yes"?>\n'
           '<workbook xmlns="http://schemas.openxmlformats.org/spreadsheetml/'
           '2006/main" xmlns:r="http://schemas.openxmlformats.org/'
